@@ -24,7 +24,7 @@ pub fn plan_for(prop: &str, tier: Tier, seed: u64, verif_dir: &str) -> Option<Pl
 	let scale: u64 = std::env::var("VERIF_SCALE").ok().and_then(|s| s.parse().ok()).unwrap_or(100);
 	let n = |quick: u64, thorough: u64| -> u64 { ((if q { quick } else { thorough }) * scale / 100).max(1) };
 	let t_assumptions = vec![
-		"T1-T5 of DESIGN.md §3.3 (block pacing, confirmation bound, downtime bound, reorg bound, fee-estimator sanity) are enforced by the scheduler".to_string(),
+		"T1-T6 of DESIGN.md §3.3 / §0.1 (block pacing, confirmation bound, downtime bound, reorg bound, fee-estimator sanity, no user force-close with a monitor write in flight) are enforced by the scheduler".to_string(),
 		"library built with feature _test_utils (MPP_TIMEOUT_TICKS=1, gossip too-old check off, extra visibility) and --cfg ldk_verif hooks H1-H3".to_string(),
 		"reference models (wire ledger, chain/mempool) are part of the trusted base".to_string(),
 	];
@@ -107,7 +107,7 @@ pub fn plan_for(prop: &str, tier: Tier, seed: u64, verif_dir: &str) -> Option<Pl
 			seed,
 			jobs: vec![job("lnsim", "justice", n(1500, 30000))],
 			level: "exploration".into(),
-			rule: "profile `justice`: 3 real nodes build a seeded off-chain history (3-16 payments in quick, up to 60 in thorough: direct and forwarded, dust and non-dust HTLCs in both directions, claims, fails, fee updates, disconnects, async monitor persistence, occasional crash/restart); after every action each node's fully signed holder commitment and (non-anchor channels) its signed HTLC transactions are archived through the test-only ChannelMonitor::unsafe_get_latest_holder_commitment_txn. After quiescence one node turns cheater: a seeded revoked commitment from its archive (any age) is handed to the miner, a seeded subset of its HTLC-success/timeout transactions in the same block or later, and the victim learns 0-3 blocks late. The chain then runs until every monitor has drained, under a seeded plan of confirmation delays (blocks that leave the mempool alone, forcing fee bumps), fee-estimator moves and reloads of any node's monitors from disk. Oracles: C06/C07-1 every transaction the victim broadcasts is consensus-valid and final (libbitcoinconsensus against the UTXO model); C06-2 walking the spend tree of the revoked commitment, every non-anchor output (and every output of the cheater's confirmed second-stage transactions) ends in the victim's scripts, spent before the cheater's to_self_delay expired; C06/C07-5 re-issued claims never lower their fee; C06/C07-4 claimable balances drain and SpendableOutputs are swept with the node's keys; wealth lower bound for the victim. One evaluation = one seeded run (config, schedule and faults all drawn from the run seed; replay executes the recorded action trace). non-trivial = a revoked commitment was confirmed; distinct = distinct FNV hash of the executed (action kind, actor) sequence.".into(),
+			rule: "profile `justice`: 3 real nodes build a seeded off-chain history (3-16 payments in quick, up to 60 in thorough: direct and forwarded, dust and non-dust HTLCs in both directions, claims, fails, fee updates, disconnects, async monitor persistence, occasional crash/restart); after every action each node's fully signed holder commitment and (non-anchor channels) its signed HTLC transactions are archived through the test-only ChannelMonitor::unsafe_get_latest_holder_commitment_txn. In two thirds of the runs after quiescence, in one third in the middle of the traffic, one node turns cheater: a seeded revoked commitment from its archive (any age) is handed to the miner, a seeded subset of its HTLC-success/timeout transactions in the same block or later, and the victim learns 0-3 blocks late. The chain then runs until every monitor has drained, under a seeded plan of confirmation delays (blocks that leave the mempool alone, forcing fee bumps), fee-estimator moves (also collapsing in the middle of a stall), shallow reorganisations (depth 1-5) and reloads of any node's monitors from disk. Oracles: C06/C07-1 every transaction the victim broadcasts is consensus-valid and final (libbitcoinconsensus against the UTXO model); C06-2 walking the spend tree of the revoked commitment, every non-anchor output (and every output of the cheater's confirmed second-stage transactions) ends in the victim's scripts, spent before the cheater's to_self_delay expired; C06/C07-5 re-issued claims never lower their fee; C06/C07-4 claimable balances drain and SpendableOutputs are swept with the node's keys; wealth lower bound for the victim. One evaluation = one seeded run (config, schedule and faults all drawn from the run seed; replay executes the recorded action trace). non-trivial = a revoked commitment was confirmed; distinct = distinct FNV hash of the executed (action kind, actor) sequence.".into(),
 			assumptions: t_assumptions.clone(),
 			probes: vec![
 				"revoked_state_at_least_4_old".into(),
